@@ -312,6 +312,9 @@ fn main() {
         let choices: Vec<usize> = case["choices"].as_array().map(|a| a.iter().map(|v| v.as_u64().unwrap_or(0) as usize).collect()).unwrap_or_default();
         let mut ch = Chooser::new(choices);
         let out = one_execution(m, ties, &mut ch);
+        if let Some(d) = &ch.diverged {
+            vcore::machinery_error(&format!("the recorded schedule does not fit this build: {d}"));
+        }
         for l in &out.trace {
             println!("{l}");
         }
